@@ -1057,6 +1057,13 @@ class MutableFileVersion:
             log.msg("doing re-encode instead of in-place update")
             return self._do_modify_update(data, offset)
 
+        # An append exactly at the end of a file whose size is a multiple
+        # of the segment size (or of an empty file) has no old segment to
+        # merge with: segment number offset // segment_size does not exist.
+        if offset == old_size and old_size % segment_size == 0:
+            log.msg("append at a segment boundary: doing re-encode")
+            return self._do_modify_update(data, offset)
+
         # Otherwise, we can replace just the parts that are changing.
         log.msg("updating in place")
         d = self._do_update_update(data, offset)
